@@ -534,6 +534,11 @@ func reifyMergeValue(
 		if err != nil {
 			return reflect.Value{}, err
 		}
+		// the value a custom Unpack method produced - or the default it left
+		// alone - is part of the result like any other value
+		if err := tryValidate(old); err != nil {
+			return reflect.Value{}, raiseValidation(val.Context(), val.meta(), "", err)
+		}
 		return old, nil
 	}
 
